@@ -822,6 +822,15 @@ def _entry(ctx, model):
     for ps in summarize(fn, plain=True, loop_mode="1"):
         if ps.term != "return":
             continue
+        # a single expression handed in instead of an iterable of them is
+        # outside the statement (refused today): whatever is done with it
+        from ..summary import facts_of
+        if any(pol and isinstance(v, tuple) and v and v[0] == "call"
+               and v[1] == "isinstance" and v[2][0] == P
+               and "Expression" in str(v[2][1])
+               for _, pol0, v0 in ps.conds if isinstance(v0, tuple)
+               for v, pol in facts_of(v0, pol0)):
+            continue
         judged = True
         # list(exprs) holds the same expressions as exprs
         rv = content(ps.retval)
